@@ -14,6 +14,7 @@ import EvalexprVerif.Proofs.AgreeOperator
 import EvalexprVerif.Proofs.AgreeToken
 import EvalexprVerif.Proofs.LexRoundtrip
 import EvalexprVerif.Proofs.ParseLoose
+import EvalexprVerif.Proofs.LexExt
 
 namespace Evalexpr.Spec.C02
 open Evalexpr Evalexpr.Spec
@@ -102,6 +103,15 @@ theorem C02_string (e : Expr) (ps : List (Gap × PTok)) (g : Gap)
     buildOperatorTree (renderFrom ps g) = .ok ⟨.rootNode, [toTree e]⟩ := by
   unfold buildOperatorTree
   rw [Evalexpr.Spec.C07_roundtrip ps g hp ha, hts]
+  exact C02_parse e
+
+/-- … and in every literal spelling (hex, signed exponents) with the weakest separation (`0x1e-3`,
+`5e-3-2e-3`): the extended round trip + `C02_parse` -/
+theorem C02_string_ext (e : Expr) (ps : List (Gap × PTok)) (g : Gap)
+    (hts : ps.map (·.2.tok) = render e) (hp : ∀ p ∈ ps, p.2.PrintableX) (ha : AdmissibleX ps g) :
+    buildOperatorTree (renderFrom ps g) = .ok ⟨.rootNode, [toTree e]⟩ := by
+  unfold buildOperatorTree
+  rw [Evalexpr.Spec.C07_roundtrip_ext ps g hp ha, hts]
   exact C02_parse e
 
 /-- **C02 (everyday spelling)**: also with a prefix operator written WITHOUT parentheses as the right
